@@ -528,19 +528,20 @@ class MixedLogReader(object):
         # Set requested source IDs.
         if source_ids is not None:
             source_ids = set(source_ids)
-            # Apply source IDs that are available.
+            # Report requested source IDs that were not seen when the file was sampled. The sample only covers the first
+            # few messages of each type, so the request is applied as given: each message is tested when it is read.
             if self.available_source_ids != source_ids:
                 unavailable_source_ids = list(source_ids.difference(self.available_source_ids))
                 if len(unavailable_source_ids) > 0:
                     self.logger.debug('Not all source IDs requested are available. Cannot extract the following '
                                       'source IDs: {}'.format(unavailable_source_ids))
-                source_ids = list(source_ids.intersection(self.available_source_ids))
-                if len(source_ids) == 0:
+                available_requested_ids = list(source_ids.intersection(self.available_source_ids))
+                if len(available_requested_ids) == 0:
                     self.logger.debug('Requested source IDs unavailable. Cannot extract data.')
-                    self.filter_in_place(None, clear_existing='source_id')
 
                 if len(unavailable_source_ids) > 0:
-                    self.logger.info('Extracting the following available requested source IDs: {}'.format(source_ids))
+                    self.logger.info('Extracting the following available requested source IDs: {}'.format(
+                        available_requested_ids))
             self.requested_source_ids = source_ids
 
         # No key specified (convenience case).
